@@ -265,6 +265,8 @@ def run(repo, chk):
 
     from .shared import variant_selection_obligations
     variant_selection_obligations(repo, chk, "R08.1")
+    from .shared import variant_symbol_obligations
+    variant_symbol_obligations(repo, chk, "R08.1")
     # ---------------- R08.2
     for e in ENTRY_POINTS:
         repo.func(e)
